@@ -252,6 +252,40 @@ def gen_consts(src):
         fail(ret, "isolate_variable: unrecognised variables expression")
     out.append(f"/-- sign given to the constant by `PolyhedralTerm.isolate_variable` (−1 is the correct one) -/\ndef isolateSign : Rat := {sgn}\n")
 
+    # 1b. _tactic_3: the auxiliary variable — the fixed name "_" or a name extended until nothing in use has it
+    f = _find_func(poly, "PolyhedralTermList", "_tactic_3")
+    txt = ast.unparse(f)
+    lit = txt.count("Var('_')")
+    whiles = [n for n in ast.walk(f) if isinstance(n, ast.While)]
+    if lit == 3 and not whiles:
+        fresh = "false"
+    elif lit == 0 and len(whiles) == 1:
+        w = whiles[0]
+        ok = (isinstance(w.test, ast.Compare) and len(w.test.ops) == 1 and isinstance(w.test.ops[0], ast.In)
+              and isinstance(w.test.left, ast.Name) and isinstance(w.test.comparators[0], ast.Name))
+        if not ok:
+            fail(w, "_tactic_3: unrecognised loop")
+        name_var, used_var = w.test.left.id, w.test.comparators[0].id
+        b = w.body
+        ok = (len(b) == 1 and isinstance(b[0], ast.AugAssign) and isinstance(b[0].op, ast.Add) and ast.unparse(b[0].target) == name_var
+              and isinstance(b[0].value, ast.Constant) and isinstance(b[0].value.value, str) and b[0].value.value != "" and not w.orelse)
+        assigns = {ast.unparse(st.targets[0]): st.value for st in f.body if isinstance(st, ast.Assign) and len(st.targets) == 1}
+        used = assigns.get(used_var)
+        ok = ok and used is not None and ast.unparse(used).replace(" ", "") == "{var.nameforvarinlist_union(list_union(term.vars,context.vars),vars_to_elim)}"
+        aux = [k for k, v in assigns.items() if ast.unparse(v) == f"Var({name_var})"]
+        ok = ok and len(aux) == 1
+        if ok:
+            a = aux[0]
+            ok = (f"new_term.variables[{a}] = 1" in txt and f"subst_term_vars = {{{a}: 1.0 / conflict_coeff[conflict_vars[0]]}}" in txt
+                  and f"list_diff(list_union(vars_to_elim, [{a}]), [conflict_vars[0]])" in txt)
+        if not ok:
+            fail(f, "_tactic_3: unrecognised selection of the auxiliary variable")
+        fresh = "true"
+    else:
+        fail(f, "_tactic_3: unrecognised use of the auxiliary variable")
+    out.append("/-- does `_tactic_3` pick an auxiliary variable whose name is used nowhere in the term, the context and the variables to "
+               f"eliminate?  (`false` = the pinned fixed name `\"_\"`) -/\ndef tactic3Fresh : Bool := {fresh}\n")
+
     # 2. verify_polytope_containment: the final comparison  `-res["fun"] <= b_temp [+ tol*(1+abs(b_temp))]`
     f = _find_func(poly, "PolyhedralTermList", "verify_polytope_containment")
     cmp_nodes = [n for n in ast.walk(f) if isinstance(n, ast.Compare) and ast.unparse(n.left).replace("'", '"') == '-res["fun"]']
